@@ -20,12 +20,12 @@ import (
 
 // Model bundles a schema with its run-time Go types and library models.
 type Model struct {
-	S        *tspace.Schema
-	Types    map[string]reflect.Type // table -> struct type
-	Client   model.ClientDBModel
-	DB       model.DatabaseModel
-	Ovs      ovsdb.DatabaseSchema
-	fieldOf  map[string]map[string]string // table -> column -> field name
+	S       *tspace.Schema
+	Types   map[string]reflect.Type // table -> struct type
+	Client  model.ClientDBModel
+	DB      model.DatabaseModel
+	Ovs     ovsdb.DatabaseSchema
+	fieldOf map[string]map[string]string // table -> column -> field name
 }
 
 func atomGoType(t string) reflect.Type {
